@@ -86,67 +86,9 @@ class System:
         if variant == "purged-orchestrator":
             o.purge()
 
-    # ---- full read-out through public getters -------------------------------------------
     def readout(self) -> dict[str, str]:
-        app, o, sb, b = self.app, self.app.orchestrator, self.app.state_backend, self.app.broker
-        q = []
-        while True:
-            x = b.retrieve_invocation()
-            if not x:
-                break
-            q.append(str(x))
-        for x in q:
-            b.route_invocation(x)
-        recs, retries, hist, res, exc, stored = {}, {}, {}, {}, {}, {}
-        known = sorted(set(self.ids) | set(q) | set(str(i) for i in o.get_invocation_ids_paginated(limit=100000)))
-        for iid in known:
-            try:
-                r = o.get_invocation_status_record(iid)
-                recs[iid] = [r.status.value, r.runner_id, r.timestamp.isoformat()]
-            except KeyError:
-                recs[iid] = None
-            retries[iid] = o.get_invocation_retries(iid)
-            try:
-                hist[iid] = sorted([h.status_record.status.value, h.runner_context_id, h.timestamp.isoformat()]
-                                   for h in sb.get_history(iid))
-            except Exception as ex:
-                hist[iid] = type(ex).__name__
-            for store, getter in ((res, sb.get_result), (exc, sb.get_exception)):
-                try:
-                    v = getter(iid)
-                    store[iid] = repr(v)
-                except Exception as ex:
-                    store[iid] = "absent:" + type(ex).__name__
-            try:
-                sb.get_invocation(iid)
-                stored[iid] = True
-            except Exception:
-                stored[iid] = False
-        listings = {
-            "count": o.count_invocations(),
-            "by_status": {s.value: o.count_invocations(statuses=[s]) for s in InvocationStatus},
-            "by_task": {t.task_id.key: sorted(str(i) for i in o.get_task_invocation_ids(t.task_id))
-                        for t in (self.t_add, self.t_key)},
-            "by_task_status": {f"{t.task_id.key}/{s.value}": sorted(str(i) for i in o.get_existing_invocations(t, None, [s]))
-                               for t in (self.t_add, self.t_key) for s in (InvocationStatus.REGISTERED, InvocationStatus.SUCCESS,
-                                                                           InvocationStatus.PENDING)},
-            "task_status_count": {f"{t.task_id.key}/{s.value}": o.count_invocations(t.task_id, [s])
-                                  for t in (self.t_add, self.t_key) for s in (InvocationStatus.REGISTERED, InvocationStatus.SUCCESS)},
-            "blocking": sorted(str(i) for i in o.get_blocking_invocations(100)),
-            "page": [str(i) for i in o.get_invocation_ids_paginated(limit=1000)],
-        }
-        runners = sorted([a.runner_id, a.last_heartbeat.isoformat(), a.allow_to_run_atomic_service,
-                          str(a.last_service_start), str(a.last_service_end)] for a in o._get_active_runners(10 ** 9, None))
-        trig = {"valid": sorted(app.trigger.get_valid_conditions()),
-                "conditions": sorted(c.condition_id for c in app.trigger._get_all_conditions())}
-        try:
-            wf = sorted(str(w.workflow_id) for w in sb.get_all_workflow_runs())
-        except Exception as ex:
-            wf = [type(ex).__name__]
-        return {"queue": _d(q), "records": _d(recs), "retries": _d(retries), "history": _d(hist), "results": _d(res),
-                "exceptions": _d(exc), "stored_invocations": _d(stored), "listings": _d(listings),
-                "runners": _d(runners), "trigger": _d(trig), "workflows": _d(wf),
-                "queue_len": _d(len(q))}
+        import observe
+        return observe.readout(self.app, [self.t_add, self.t_key], self.ids)
 
 
 def get_routes(api: Any) -> list[tuple[str, list[dict]]]:
